@@ -170,11 +170,15 @@ class ValDriver(Harness):
                 t = [(K.CKA_CLASS, K.CKO_PRIVATE_KEY), (K.CKA_KEY_TYPE, K.CKK_EC), (K.CKA_TOKEN, True),
                      (K.CKA_EC_PARAMS, d["params"]), (K.CKA_VALUE, d["d"]), (K.CKA_DERIVE, True)]
                 ident = d["point"]
-            rv, g = p.create_object(s, t)
+            rv, g = p.create_object(s, t + ([(K.CKA_SIGN, True)] if kind == "ec" else []))
+            pub = 0
+            if kind == "ec" and rv == 0:
+                rv, pub = p.create_object(s, [(K.CKA_CLASS, K.CKO_PUBLIC_KEY), (K.CKA_KEY_TYPE, K.CKK_EC), (K.CKA_TOKEN, True),
+                                              (K.CKA_EC_PARAMS, d["params"]), (K.CKA_EC_POINT, d["point"]), (K.CKA_VERIFY, True)])
             ev = dict(e="Import", kind=kind, i=i, rv=rvname(rv), k=0, v=h(ident), ref=h(ident), kcv="", kcvref="")
             if rv == 0:
                 self.nk += 1
-                self.keys[self.nk] = dict(h=g, kind=kind, val=None)
+                self.keys[self.nk] = dict(h=g, kind=kind, val=None, pub=pub)
                 ev["k"] = self.nk
             return ev
         val = fixed_key(kind, i)
@@ -494,6 +498,23 @@ class ValDriver(Harness):
     def MRCrypt(self, mode, k, d):
         kk = self.keys[k]
         data = data_of(d)
+        if mode == "ecdsa":
+            # CKM_ECDSA signs a digest the caller computed; r || s
+            e = TK.EC_P256
+            dg = hashlib.sha256(data).digest()
+            pt = e["point"][-64:]
+            pubxy = (int.from_bytes(pt[:32], "big"), int.from_bytes(pt[32:], "big"))
+            ev = dict(e="RCrypt", mode=mode, k=k, d=d, rv="", refok=False, libok=False, tamper=True)
+            rv, sig = self.run("Sign", Mech(K.CKM_ECDSA), kk["h"], dg, 0)
+            ev["rv"] = rvname(rv)
+            if rv == 0:
+                ev["refok"] = R.ecdsa_verify_p256(pubxy, dg, sig)
+                mine = R.ecdsa_sign_p256(int.from_bytes(e["d"], "big"), dg, 1 + self.rng.randrange(2 ** 200))
+                ev["libok"] = self.verify(Mech(K.CKM_ECDSA), kk["pub"], dg, mine, 0) == 0
+                ev["tamper"] = (self.verify(Mech(K.CKM_ECDSA), kk["pub"], flip(dg), sig, 0) != 0 and
+                                self.verify(Mech(K.CKM_ECDSA), kk["pub"], dg, flip(sig, 40), 0) != 0 and
+                                not R.ecdsa_verify_p256(pubxy, flip(dg), sig))
+            return ev
         pub, priv = kk["h"]
         key = rsa_ints()
         ev = dict(e="RCrypt", mode=mode, k=k, d=d, rv="", refok=False, libok=False, tamper=True)
